@@ -116,7 +116,7 @@ class Ctx:
             bad &= ~((a_ == b_) | (np.isnan(a_) & np.isnan(b_)))
         if np.any(bad):
             self.fail(sig, 'got %r expected %r (rtol %g atol %g) %s' % (
-                jsonable(a_), jsonable(b_), rtol, atol, detail))
+                jsonable(a_), jsonable(b_), rtol, float(np.max(atol)), detail))
             return False
         return True
 
